@@ -1,7 +1,477 @@
-//! (stub) driver module - see tools/HOWTO.md
-use crate::util::Args;
+//! Driver for C07: the native IcyDraw format is lossless.
+//!
+//! Every case is one document: built here (from a TLC-generated case table + seeded random data, all inside the
+//! domain stated by the property), saved with `Buffer::to_bytes("icy", lossles_output = true)`, re-loaded with
+//! `Buffer::from_bytes`, and recorded as ONE event
+//!   {"ev":"doc","case":..,"cls":..,"save":"ok|err|panic","load":"ok|err|panic|-","site":..,
+//!    "src":{projection of the source document},"chunks":[{"kw":[keyword code points],"d":[payload bytes]}..],
+//!    "back":{projection of the re-loaded document}}
+//! PNG framing, zlib and base64 are unwrapped here (crates png + base64); the chunk payloads are what IcyDraw.tla decodes.
+//! 32-bit quantities are split into 16-bit halves (cells: [chHi,chLo,fgHi,fgLo,bgHi,bgLo,attr,fontPage], invisible = []).
+use crate::util::{guard, panic_site, rng, Args, Out};
+use base64::{engine::general_purpose, Engine};
+use icy_engine::{
+    AttributedChar, BitFont, Buffer, BufferType, Color, FontMode, IceMode, Layer, Line, Mode, Palette, PaletteMode, Role, SauceData, SauceString, SaveOptions,
+    Sixel, TextAttribute, TextPane,
+};
+use rand::rngs::StdRng;
+use rand::Rng;
+use serde_json::{json, Value};
+use std::path::Path;
 
-pub fn c07(_a: &Args) {
-    eprintln!("c07: driver not built yet");
-    std::process::exit(2);
+// ------------------------------------------------------------------------------------------------ projection
+fn cell_value(ch: AttributedChar) -> Value {
+    if !ch.is_visible() {
+        return json!([]);
+    }
+    let c = ch.ch as u32;
+    let fg = ch.attribute.get_foreground();
+    let bg = ch.attribute.get_background();
+    json!([c >> 16, c & 0xFFFF, fg >> 16, fg & 0xFFFF, bg >> 16, bg & 0xFFFF, ch.attribute.attr, ch.attribute.get_font_page()])
+}
+
+fn layer_value(l: &Layer) -> Value {
+    let image = matches!(l.role, Role::Image);
+    let mut rows = Vec::new();
+    if !image {
+        for y in 0..l.get_height() {
+            let mut row: Vec<Value> = Vec::new();
+            let mut last_visible = 0;
+            for x in 0..l.get_width() {
+                let ch = l.get_char((x, y));
+                if ch.is_visible() {
+                    last_visible = x as usize + 1;
+                }
+                row.push(cell_value(ch));
+            }
+            row.truncate(last_visible);
+            rows.push(Value::Array(row));
+        }
+    }
+    let img = if image && !l.sixels.is_empty() {
+        let s = &l.sixels[0];
+        json!([s.get_width(), s.get_height(), s.vertical_scale, s.horizontal_scale, s.picture_data])
+    } else {
+        json!([])
+    };
+    let role = match l.role { Role::Normal => 0, Role::Image => 1, Role::PastePreview => 2, Role::PasteImage => 3 };
+    let mode = match l.properties.mode { Mode::Normal => 0, Mode::Chars => 1, Mode::Attributes => 2 };
+    let color = match &l.properties.color { Some(c) => { let (r, g, b) = c.get_rgb(); json!([r, g, b]) } None => json!([]) };
+    json!({
+        "title": l.properties.title.as_bytes(), "role": role, "mode": mode, "color": color,
+        "vis": l.properties.is_visible as u8, "lock": l.properties.is_locked as u8, "plock": l.properties.is_position_locked as u8,
+        "alpha": l.properties.has_alpha_channel as u8, "alock": l.properties.is_alpha_channel_locked as u8,
+        "tr": l.transparency, "x": l.get_offset().x, "y": l.get_offset().y, "w": l.get_width(), "h": l.get_height(),
+        "fp": l.default_font_page, "rows": rows, "img": img
+    })
+}
+
+fn font_value(slot: usize, f: &BitFont) -> Value {
+    let mut g: Vec<u8> = Vec::new();
+    for c in 0..f.length.max(0) as u32 {
+        if let Some(gl) = char::from_u32(c).and_then(|c| f.get_glyph(c)) {
+            g.extend_from_slice(&gl.data);
+        }
+    }
+    json!({"slot": slot, "name": f.name.as_bytes(), "w": f.size.width, "h": f.size.height, "n": f.length, "g": g})
+}
+
+fn sauce_text<const L: usize, const E: u8>(s: &SauceString<L, E>) -> Value {
+    Value::Array(s.to_string().chars().map(|c| json!(c as u32)).collect())
+}
+
+pub fn doc_value(b: &Buffer) -> Value {
+    let mut fonts: Vec<(usize, Value)> = b.font_iter().map(|(k, f)| (*k, font_value(*k, f))).collect();
+    fonts.sort_by_key(|(k, _)| *k);
+    let pal: Vec<Value> = (0..b.palette.len()).map(|i| { let (r, g, bl) = b.palette.get_rgb(i as u32); json!([r, g, bl]) }).collect();
+    let sauce = match b.get_sauce() {
+        Some(s) => json!([{"title": sauce_text(&s.title), "author": sauce_text(&s.author), "group": sauce_text(&s.group),
+                           "comments": s.comments.iter().map(sauce_text).collect::<Vec<_>>(), "ls": s.use_letter_spacing as u8, "ar": s.use_aspect_ratio as u8}]),
+        None => json!([]),
+    };
+    json!({
+        "w": b.get_width(), "h": b.get_height(), "bt": b.buffer_type.to_byte(), "ice": b.ice_mode.to_byte(), "pm": b.palette_mode.to_byte(), "fm": b.font_mode.to_byte(),
+        "layers": b.layers.iter().map(layer_value).collect::<Vec<_>>(), "pal": pal, "fonts": fonts.into_iter().map(|(_, v)| v).collect::<Vec<_>>(), "sauce": sauce
+    })
+}
+
+/// Unwrap PNG + zTXt + base64: the list of (keyword, payload) in file order.
+pub fn unwrap_chunks(bytes: &[u8]) -> Result<Vec<(String, Vec<u8>)>, String> {
+    let decoder = png::Decoder::new(std::io::Cursor::new(bytes));
+    let reader = decoder.read_info().map_err(|e| format!("png: {e}"))?;
+    let mut res = Vec::new();
+    for c in &reader.info().compressed_latin1_text {
+        let text = c.get_text().map_err(|e| format!("ztxt {}: {e}", c.keyword))?;
+        let data = general_purpose::STANDARD.decode(text).map_err(|e| format!("base64 {}: {e}", c.keyword))?;
+        res.push((c.keyword.clone(), data));
+    }
+    Ok(res)
+}
+
+/// Deterministic 64-bit digest of a projection (SipHash with the fixed default keys), used to count DISTINCT cases.
+pub fn digest(v: &Value) -> String {
+    use std::hash::{Hash, Hasher};
+    let mut h = std::collections::hash_map::DefaultHasher::new();
+    v.to_string().hash(&mut h);
+    format!("{:016x}", h.finish())
+}
+
+// ------------------------------------------------------------------------------------------------ one case
+fn run_case(out: &mut Out, case: &str, cls: &str, buf: &Buffer) {
+    out.ev(&json!({"ev":"reset","case":case,"cls":cls}));
+    let src = doc_value(buf);
+    let h = digest(&src);
+    let ok = run_case_inner(out, case, cls, buf, src);
+    // short summary line: lets the check count distinct documents without parsing the bulk
+    out.ev(&json!({"ev":"sum","case":case,"h":h,"ok":ok as u8}));
+}
+
+fn run_case_inner(out: &mut Out, case: &str, cls: &str, buf: &Buffer, src: Value) -> bool {
+    let mut opts = SaveOptions::default();
+    opts.lossles_output = true;
+    let saved = guard(|| buf.to_bytes("icy", &opts).map_err(|e| e.to_string()));
+    let bytes = match saved {
+        Ok(Ok(b)) => b,
+        Ok(Err(e)) => { out.ev(&json!({"ev":"doc","case":case,"cls":cls,"save":"err","load":"-","site":e,"src":src,"chunks":[],"back":{}})); return false; }
+        Err(p) => { out.ev(&json!({"ev":"doc","case":case,"cls":cls,"save":"panic","load":"-","site":panic_site(&p),"line":p.line,"msg":p.msg,"src":src,"chunks":[],"back":{}})); return false; }
+    };
+    let chunks: Vec<Value> = match unwrap_chunks(&bytes) {
+        Ok(c) => c.into_iter().map(|(k, d)| json!({"kw": k.chars().map(|c| c as u32).collect::<Vec<_>>(), "d": d})).collect(),
+        Err(e) => { out.ev(&json!({"ev":"doc","case":case,"cls":cls,"save":"err","load":"-","site":format!("unreadable png: {e}"),"src":src,"chunks":[],"back":{}})); return false; }
+    };
+    let loaded = guard(|| Buffer::from_bytes(Path::new("case.icy"), true, &bytes).map_err(|e| e.to_string()));
+    match loaded {
+        Ok(Ok(back)) => { out.ev(&json!({"ev":"doc","case":case,"cls":cls,"save":"ok","load":"ok","site":"","file_len":bytes.len(),"src":src,"chunks":chunks,"back":doc_value(&back)})); return true; }
+        Ok(Err(e)) => out.ev(&json!({"ev":"doc","case":case,"cls":cls,"save":"ok","load":"err","site":e,"src":src,"chunks":chunks,"back":{}})),
+        Err(p) => out.ev(&json!({"ev":"doc","case":case,"cls":cls,"save":"ok","load":"panic","site":panic_site(&p),"line":p.line,"msg":p.msg,"src":src,"chunks":chunks,"back":{}})),
+    }
+    false
+}
+
+// ------------------------------------------------------------------------------------------------ generators
+/// What a document is drawn from: the palette length and the font pages that exist.
+struct Env {
+    pal_len: u32,
+    pages: Vec<usize>,
+}
+
+fn unicode_scalar(r: &mut StdRng) -> char {
+    loop {
+        let v = match r.gen_range(0..6) {
+            0 => r.gen_range(0x100..0x800),
+            1 => r.gen_range(0x800..0x10000),
+            2 => r.gen_range(0x10000..0x110000),
+            3 => *[0x100u32, 0xFFFF, 0x10000, 0x10FFFF, 0xD7FF, 0xE000].get(r.gen_range(0..6)).unwrap(),
+            _ => r.gen_range(0x100..0x3000),
+        };
+        if let Some(c) = char::from_u32(v) {
+            return c;
+        }
+    }
+}
+
+fn attr_bits(r: &mut StdRng) -> u16 {
+    match r.gen_range(0..4) { 0 => 0, 1 => 1 << r.gen_range(0..10), 2 => r.gen_range(0..0x400), _ => 0x3FF & r.gen::<u16>() }
+}
+
+fn short_cell(r: &mut StdRng, env: &Env) -> AttributedChar {
+    let pages: Vec<usize> = env.pages.iter().copied().filter(|p| *p <= 255).collect();
+    let mut a = TextAttribute::new(r.gen_range(0..env.pal_len.min(256)), r.gen_range(0..env.pal_len.min(256)));
+    a.set_font_page(pages[r.gen_range(0..pages.len())]);
+    a.attr = attr_bits(r);
+    let ch = match r.gen_range(0..5) { 0 => 0u8, 1 => 255, 2 => b' ', _ => r.gen() };
+    AttributedChar::new(ch as char, a)
+}
+
+/// A cell of the given class ("I","S","C","F","T","P" as in MC_IcyDraw); falls back to a neighbouring class when the
+/// environment cannot express it (no colour >= 256 in the palette, no font page >= 256 in the table).
+fn class_cell(r: &mut StdRng, env: &Env, class: &str) -> AttributedChar {
+    match class {
+        "I" => AttributedChar::invisible(),
+        "S" => short_cell(r, env),
+        "C" => { let mut c = short_cell(r, env); c.ch = unicode_scalar(r); c }
+        "F" => {
+            let mut c = short_cell(r, env);
+            if env.pal_len > 256 {
+                let v = r.gen_range(256..env.pal_len);
+                match r.gen_range(0..3) { 0 => c.attribute.set_foreground(v), 1 => c.attribute.set_background(v), _ => { c.attribute.set_foreground(v); c.attribute.set_background(r.gen_range(256..env.pal_len)); } }
+            } else {
+                c.ch = unicode_scalar(r);
+            }
+            c
+        }
+        "T" => {
+            let mut c = short_cell(r, env);
+            match r.gen_range(0..3) { 0 => c.attribute.set_foreground(TextAttribute::TRANSPARENT_COLOR), 1 => c.attribute.set_background(TextAttribute::TRANSPARENT_COLOR),
+                                      _ => { c.attribute.set_foreground(TextAttribute::TRANSPARENT_COLOR); c.attribute.set_background(TextAttribute::TRANSPARENT_COLOR); } }
+            if r.gen_bool(0.5) { c.ch = ['\u{2580}', '\u{2584}', '\u{DF}', '\u{DC}'][r.gen_range(0..4)]; }
+            c
+        }
+        _ => {
+            let mut c = short_cell(r, env);
+            let pages: Vec<usize> = env.pages.iter().copied().filter(|p| *p > 255).collect();
+            if pages.is_empty() { c.ch = unicode_scalar(r); } else { c.attribute.set_font_page(pages[r.gen_range(0..pages.len())]); }
+            c
+        }
+    }
+}
+
+fn random_class(r: &mut StdRng, density: f64, long_p: f64) -> &'static str {
+    if !r.gen_bool(density) { return "I"; }
+    if !r.gen_bool(long_p) { return "S"; }
+    ["C", "F", "T", "P"][r.gen_range(0..4)]
+}
+
+fn random_title(r: &mut StdRng) -> String {
+    let n = match r.gen_range(0..6) { 0 => 0, 1 => 1, 2 => r.gen_range(30..80), _ => r.gen_range(1..24) };
+    (0..n).map(|_| match r.gen_range(0..5) { 0 => unicode_scalar(r), 1 => ['ä', 'ß', '€', '日', '本', '\u{1F600}', ' ', '~', '\t'][r.gen_range(0..9)], _ => r.gen_range(0x20u8..0x7F) as char }).collect()
+}
+
+fn random_font(r: &mut StdRng, name: String, height: u8) -> BitFont {
+    let data: Vec<u8> = (0..256 * height as usize).map(|_| r.gen()).collect();
+    BitFont::create_8(name, 8, height, &data)
+}
+
+fn random_palette(r: &mut StdRng, n: usize) -> Palette {
+    let mut p = Palette::new();
+    for i in 0..n {
+        let c = match r.gen_range(0..4) { 0 => Color::new(r.gen(), r.gen(), r.gen()), 1 => Color::new((i % 256) as u8, (i / 2 % 256) as u8, 255 - (i % 256) as u8), 2 => Color::new(r.gen_range(0..4), 0, 255), _ => Color::new(r.gen(), r.gen(), r.gen()) };
+        p.push(c);
+    }
+    if r.gen_bool(0.3) { p.title = "Palette 16 colours".to_string(); p.author = "a. uthor".to_string(); p.description = "abcdef 012345".to_string(); }
+    p
+}
+
+fn sauce_ascii(r: &mut StdRng, max: usize) -> String {
+    let n = match r.gen_range(0..4) { 0 => 0, 1 => max, _ => r.gen_range(0..=max) };
+    let mut s: String = (0..n).map(|_| if r.gen_bool(0.15) { ' ' } else { r.gen_range(0x21u8..0x7F) as char }).collect();
+    while s.ends_with(' ') { s.pop(); s.push('x'); }
+    s
+}
+
+fn random_sauce(r: &mut StdRng) -> SauceData {
+    let mut s = SauceData::default();
+    s.title = SauceString::from(sauce_ascii(r, 35));
+    s.author = SauceString::from(sauce_ascii(r, 20));
+    s.group = SauceString::from(sauce_ascii(r, 20));
+    let nc = match r.gen_range(0..4) { 0 => 0, 1 => 1, _ => r.gen_range(0..6) };
+    s.comments = (0..nc).map(|_| SauceString::from(sauce_ascii(r, 64))).collect();
+    s.use_letter_spacing = r.gen_bool(0.5);
+    s.use_aspect_ratio = r.gen_bool(0.5);
+    s
+}
+
+/// An empty document with the given environment (fonts for every page, palette).
+fn new_doc(r: &mut StdRng, size: (i32, i32), pal_len: usize, pages: &[usize], font0_height: u8, small_fonts: bool) -> (Buffer, Env) {
+    let mut buf = Buffer::new(size);
+    buf.layers.clear();
+    if pal_len != 16 || r.gen_bool(0.7) {
+        buf.palette = random_palette(r, pal_len);
+    }
+    for &p in pages {
+        if p == 0 && font0_height == 16 && r.gen_bool(0.5) {
+            continue; // keep the default CP437 font in slot 0
+        }
+        let h = if p == 0 { font0_height } else if small_fonts { r.gen_range(1..=4) } else { [8u8, 14, 16, 19, 32, 1, 5][r.gen_range(0..7)] };
+        let name = if r.gen_bool(0.3) { random_title(r) } else { format!("font {p}") };
+        buf.set_font(p, random_font(r, name, h));
+    }
+    buf.buffer_type = [BufferType::Unicode, BufferType::CP437, BufferType::Petscii, BufferType::Atascii, BufferType::Viewdata][r.gen_range(0..5)];
+    buf.ice_mode = [IceMode::Unlimited, IceMode::Blink, IceMode::Ice][r.gen_range(0..3)];
+    buf.palette_mode = [PaletteMode::RGB, PaletteMode::Fixed16, PaletteMode::Free8, PaletteMode::Free16][r.gen_range(0..4)];
+    buf.font_mode = [FontMode::Unlimited, FontMode::Sauce, FontMode::Single, FontMode::FixedSize][r.gen_range(0..4)];
+    let env = Env { pal_len: buf.palette.len() as u32, pages: pages.to_vec() };
+    (buf, env)
+}
+
+/// A layer whose `lines` are written directly (set_char refuses locked / hidden layers), rows given as cells.
+fn make_layer(title: String, w: i32, h: i32, rows: Vec<Vec<AttributedChar>>) -> Layer {
+    let mut l = Layer::new(title, (w, h));
+    l.lines = rows.into_iter().map(|chars| Line { chars }).collect();
+    l
+}
+
+fn apply_flags(l: &mut Layer, flags: u32) {
+    l.properties.is_visible = flags & 1 != 0;
+    l.properties.is_locked = flags & 2 != 0;
+    l.properties.is_position_locked = flags & 4 != 0;
+    l.properties.has_alpha_channel = flags & 8 != 0;
+    l.properties.is_alpha_channel_locked = flags & 16 != 0;
+}
+
+fn random_rows(r: &mut StdRng, env: &Env, w: i32, h: i32) -> Vec<Vec<AttributedChar>> {
+    let density = [0.0, 0.1, 0.5, 0.9, 1.0][r.gen_range(0..5)];
+    let long_p = [0.0, 0.05, 0.3, 1.0][r.gen_range(0..4)];
+    let nrows = match r.gen_range(0..4) { 0 => r.gen_range(0..=h), _ => h }; // fewer stored lines than the layer is high
+    (0..nrows).map(|_| {
+        let len = match r.gen_range(0..5) { 0 => r.gen_range(0..=w), 1 => 0, _ => w }; // ragged lines
+        let d = if r.gen_bool(0.15) { 0.0 } else if r.gen_bool(0.15) { 1.0 } else { density };
+        (0..len).map(|_| { let c = random_class(r, d, long_p); class_cell(r, env, c) }).collect()
+    }).collect()
+}
+
+fn image_layer(r: &mut StdRng, title: String, w: i32, h: i32) -> Layer {
+    let mut l = Layer::new(title, (w, h));
+    l.lines.clear();
+    l.role = Role::Image;
+    let (iw, ih) = (r.gen_range(1..4), r.gen_range(1..4));
+    let data: Vec<u8> = (0..iw * ih * 4).map(|_| r.gen()).collect();
+    l.sixels.push(Sixel::from_data((iw, ih), r.gen_range(1..3), r.gen_range(1..3), data));
+    l
+}
+
+fn random_layer(r: &mut StdRng, env: &Env, max_w: i32, max_h: i32) -> Layer {
+    let w = match r.gen_range(0..8) { 0 => 0, 1 => 1, 2 => max_w, _ => r.gen_range(0..=max_w) };
+    let h = match r.gen_range(0..8) { 0 => 0, 1 => 1, 2 => max_h, _ => r.gen_range(0..=max_h) };
+    let title = random_title(r);
+    let mut l = if r.gen_bool(0.08) { image_layer(r, title, w, h) } else { let rows = random_rows(r, env, w, h); make_layer(title, w, h, rows) };
+    l.properties.mode = [Mode::Normal, Mode::Chars, Mode::Attributes][r.gen_range(0..3)];
+    if r.gen_bool(0.4) { l.properties.color = Some(Color::new(r.gen(), r.gen(), r.gen())); }
+    l.transparency = match r.gen_range(0..3) { 0 => 0, 1 => 255, _ => r.gen() };
+    l.default_font_page = env.pages[r.gen_range(0..env.pages.len())];
+    l.properties.offset = (match r.gen_range(0..4) { 0 => -50, 1 => 50, _ => r.gen_range(-50..=50) }, match r.gen_range(0..4) { 0 => -50, 1 => 50, _ => r.gen_range(-50..=50) }).into();
+    apply_flags(&mut l, if r.gen_bool(0.4) { 1 } else { r.gen_range(0..32) });
+    l
+}
+
+fn random_pages(r: &mut StdRng) -> Vec<usize> {
+    let mut pages = vec![0usize];
+    for _ in 0..r.gen_range(0..3) {
+        let p = match r.gen_range(0..4) { 0 => r.gen_range(1..=255), 1 => r.gen_range(256..=300), 2 => [1, 255, 256, 300][r.gen_range(0..4)], _ => r.gen_range(1..=42) };
+        if !pages.contains(&p) { pages.push(p); }
+    }
+    pages
+}
+
+pub fn c07(a: &Args) {
+    let mut out = Out::create(&a.str("out", "work/C07/trace.ndjson"));
+    let seed = a.u64("seed", 0);
+    let thorough = a.str("tier", "quick") == "thorough";
+    let gen = a.str("gen", "gen/icydraw.ndjson");
+    let only = a.str("only", "");
+
+    let mut rows: Vec<(i32, Vec<String>)> = Vec::new();
+    let mut geos: Vec<Value> = Vec::new();
+    if let Ok(text) = std::fs::read_to_string(&gen) {
+        for line in text.lines() {
+            let Ok(v) = serde_json::from_str::<Value>(line) else { continue };
+            match v["kind"].as_str() {
+                Some("row") => rows.push((v["w"].as_i64().unwrap_or(0) as i32, v["cells"].as_array().map(|c| c.iter().map(|x| x.as_str().unwrap_or("I").to_string()).collect()).unwrap_or_default())),
+                Some("geo") => geos.push(v["g"].clone()),
+                _ => {}
+            }
+        }
+    }
+    let mut ndocs = 0usize;
+
+    // (0) probes outside the registered run (manual experiments): --only probe
+    if only == "probe" {
+        let mut r = rng(seed, 7);
+        // (a) invisible cells that carry other attribute bits
+        let (mut buf, env) = new_doc(&mut r, (4, 2), 16, &[0], 16, true);
+        let mut inv = AttributedChar::invisible();
+        inv.attribute.attr |= 1;
+        let rows = vec![vec![short_cell(&mut r, &env), inv, short_cell(&mut r, &env), short_cell(&mut r, &env)], vec![short_cell(&mut r, &env)]];
+        buf.layers.push(make_layer("p".into(), 4, 2, rows));
+        run_case(&mut out, "probe-invisible-bold", "probe", &buf);
+        // (b) a layer above the 3 MB chunk limit (outside the stated domain): continuation chunks
+        for variant in 0..3 {
+            let (mut buf, env) = new_doc(&mut r, (4, 2), 16, &[0], 16, true);
+            let w = 2000;
+            let h = 110;
+            let mut rows: Vec<Vec<AttributedChar>> = (0..h).map(|_| (0..w).map(|_| { let mut c = short_cell(&mut r, &env); c.ch = 'Ā'; c }).collect()).collect();
+            if variant == 1 { for y in 90..95 { rows[y] = vec![]; } }
+            let mut l = make_layer("big".into(), w as i32, h as i32, rows);
+            if variant == 2 { l.properties.is_locked = true; }
+            buf.layers.push(l);
+            run_case(&mut out, &format!("probe-big-{variant}"), "probe", &buf);
+        }
+    }
+
+    // (1) TLC row shapes: every sequence over the cell alphabet up to width 4, stacked into layers of exactly that width
+    //     (so that trailing invisible cells are the "visible prefix shorter than the width" cases), 24 rows per layer, <= 6 layers per document.
+    if only.is_empty() || only == "rows" {
+        let mut r = rng(seed, 100);
+        let mut layers: Vec<(i32, Vec<Vec<String>>)> = Vec::new();
+        for w in 0..=4 {
+            let of_w: Vec<&Vec<String>> = rows.iter().filter(|(rw, _)| *rw == w).map(|(_, c)| c).collect();
+            for chunk in of_w.chunks(24) {
+                layers.push((w, chunk.iter().map(|c| (*c).clone()).collect()));
+            }
+        }
+        for (di, group) in layers.chunks(6).enumerate() {
+            let pages = vec![0usize, 7, 256 + (di % 45)];
+            let (mut buf, env) = new_doc(&mut r, (8, 24), 300, &pages, 16, true);
+            for (li, (w, shape_rows)) in group.iter().enumerate() {
+                let cells: Vec<Vec<AttributedChar>> = shape_rows.iter().map(|row| row.iter().map(|c| class_cell(&mut r, &env, c)).collect()).collect();
+                let mut l = make_layer(format!("rows w={w} #{li}"), *w, shape_rows.len() as i32, cells);
+                l.properties.offset = (li as i32, 0).into();
+                buf.layers.push(l);
+            }
+            run_case(&mut out, &format!("rows-{di}"), "tlc-rows", &buf);
+            ndocs += 1;
+        }
+    }
+
+    // (2) TLC layer geometry x flag table: sampled in the quick tier (a different sample per seed), complete in the thorough tier
+    if only.is_empty() || only == "geo" {
+        let mut r = rng(seed, 200);
+        let n = geos.len();
+        let mut idx: Vec<usize> = (0..n).collect();
+        if !thorough {
+            for i in 0..n.min(1800) { let j = r.gen_range(i..n); idx.swap(i, j); }
+            idx.truncate(1800);
+        }
+        for (di, group) in idx.chunks(6).enumerate() {
+            let pages = vec![0usize, 300];
+            let size = (r.gen_range(1..=12), r.gen_range(1..=6));
+            let pal_len = if di % 3 == 0 { 16 } else { r.gen_range(1..=300) };
+            let f0 = if di % 4 == 0 { 16 } else { r.gen_range(1..=8) };
+            let (mut buf, env) = new_doc(&mut r, size, pal_len, &pages, f0, true);
+            for gi in group {
+                let g = &geos[*gi];
+                let gv = |k: &str| g[k].as_i64().unwrap_or(0);
+                let (w, h) = (gv("w") as i32, gv("h") as i32);
+                let title = random_title(&mut r);
+                let mut l = if gv("role") == 1 { image_layer(&mut r, title, w, h) } else { let rows = random_rows(&mut r, &env, w, h); make_layer(title, w, h, rows) };
+                l.properties.mode = [Mode::Normal, Mode::Chars, Mode::Attributes][gv("mode") as usize % 3];
+                if gv("tag") == 1 { l.properties.color = Some(Color::new(r.gen(), r.gen(), r.gen_range(1..=255))); }
+                l.properties.offset = (gv("x") as i32, gv("y") as i32).into();
+                l.transparency = r.gen();
+                l.default_font_page = pages[r.gen_range(0..2)];
+                // TLC's flag bits are in specification order: 1 visible, 2 edit lock, 4 position lock, 8 alpha, 16 alpha locked
+                apply_flags(&mut l, gv("flags") as u32);
+                buf.layers.push(l);
+            }
+            run_case(&mut out, &format!("geo-{di}"), "tlc-geo", &buf);
+            ndocs += 1;
+        }
+    }
+
+    // (3) seeded random documents
+    if only.is_empty() || only == "rnd" {
+        let n = a.usize("docs", if thorough { 3000 } else { 300 });
+        for d in 0..n {
+            let mut r = rng(seed, 1000 + d as u64);
+            let big = thorough && d % 7 == 0;
+            let (max_w, max_h) = if big { (200, 120) } else if thorough && d % 3 == 0 { (80, 50) } else { (40, 20) };
+            let pages = random_pages(&mut r);
+            let pal_len = match r.gen_range(0..6) { 0 => 16, 1 => 1, 2 => 300, 3 => r.gen_range(257..=300), _ => r.gen_range(1..=300) };
+            let size = (r.gen_range(1..=max_w), r.gen_range(1..=max_h));
+            let f0 = [16u8, 16, 8, 14, 4][r.gen_range(0..5)];
+            let small = !big && r.gen_bool(0.6);
+            let (mut buf, env) = new_doc(&mut r, size, pal_len, &pages, f0, small);
+            let nl = if big { r.gen_range(1..=6) } else { match r.gen_range(0..4) { 0 => 1, 1 => 6, _ => r.gen_range(1..=6) } };
+            for _ in 0..nl {
+                buf.layers.push(random_layer(&mut r, &env, max_w, max_h));
+            }
+            if r.gen_bool(0.5) {
+                buf.set_sauce(Some(random_sauce(&mut r)), false);
+            }
+            run_case(&mut out, &format!("rnd-{seed}-{d}"), if big { "rnd-big" } else { "rnd" }, &buf);
+            ndocs += 1;
+        }
+    }
+    out.flush();
+    eprintln!("c07: {ndocs} documents, {} events ({} TLC row shapes, {} TLC geometry cases available)", out.n, rows.len(), geos.len());
 }
